@@ -228,5 +228,15 @@ pub open spec fn line_number_field_spec(line_number: Option<usize>, alignment: A
 //@rewrite <<<let pad = |n| format::pad(n, width, alignment, precision);>>> => <<<let pad = |n: usize| -> (p: String) ensures p@ == pad_spec(n, width, alignment, precision) { format::pad(n, width, alignment, precision) };>>>
 //@rewrite <<<" ".repeat(width)>>> => <<<verif_spaces(width)>>>
 
+// ---------------------------------------------------------------- format_commit_line_with_osc8_commit_hyperlink: a line that already carries a link
+//@ region src/features/hyperlinks.rs format_commit_line_with_osc8_commit_hyperlink
+//@sig pub fn commit_link_guard<'a>(line: &'a str) -> (r: Option<&'a str>)
+//@fromafter <<<result.push_str(&line[pos..]); result } }>>>
+//@until <<<if let Some(commit_link_format) = &config.hyperlinks_commit_link_format {>>>
+//@tail None
+//@| ensures contains_spec(line@, "\x1b]8;"@) ==> r == Some(line),  // @C09,C19:a.commit.line.that.already.carries.a.hyperlink.is.left.alone.no.link.is.opened.inside.a.link.or.inside.its.url
+//@|         r matches Some(l) ==> l == line,
+//@rewrite <<<return Cow::from(line);>>> => <<<return Some(line);>>>
+
 } // verus!
 fn main() {}
